@@ -88,15 +88,29 @@ def check(cx):
     wr = [(e, x) for e, x in effs if path_of(x['place']) == ['wallops_users']]
     r2.instance('WALLOPS membership moves iff present')
     wh = has(field(STATE, 'wallops_users'), CONN_NICK)
-    if len(wr) != 2 or not all(equivalent(e.pc, And(G, wh))[0] for e, _ in wr):
+    def _wnorm(f):
+        # `set.remove(old)` returning true says the same as "old was in the set"; removing an absent entry changes nothing
+        def fn_(a):
+            if a[0] == 'call' and a[1].split('::')[-1] == 'remove' and a[2:] == (field(STATE, 'wallops_users'), CONN_NICK):
+                return wh
+            return Atom(a)
+        return rename(f, fn_)
+    okw = len(wr) == 2
+    for e, x in wr:
+        f = _wnorm(e.pc)
+        if x['op'] == 'remove':
+            okw = okw and (equivalent(f, And(G, wh))[0] or equivalent(f, G)[0])
+        else:
+            okw = okw and equivalent(f, And(G, wh))[0]
+    if not okw:
         # which way it is wrong matters to the properties that import this rule: an entry left behind under the old nick (or
         # inserted for a refused change) names a nick that is not registered; an entry dropped too often does not
         rm = [e for e, x in wr if x['op'] == 'remove']
         ins_ = [e for e, x in wr if x['op'] == 'insert']
         kind_ = 'other'
-        if not rm or not entails(And(G, wh), Or(*[e.pc for e in rm]))[0]:
+        if not rm or not entails(And(G, wh), Or(*[_wnorm(e.pc) for e in rm]))[0]:
             kind_ = 'stale'
-        elif ins_ and not all(entails(e.pc, G)[0] for e in ins_):
+        elif ins_ and not all(entails(_wnorm(e.pc), G)[0] for e in ins_):
             kind_ = 'spurious-insert'
         r2.violation('process_nick|rekey|wallops-condition|' + kind_, 'WALLOPS membership is not moved exactly when the old nick was in the set',
                      loc=fn)
